@@ -174,3 +174,6 @@ C13 = [
 ]
 
 PROPS.update({"C19": C19, "C07": C07, "C11": C11, "C14": C14, "C13": C13})
+# C02 (accepted => code generation succeeds): an identifier the keyword table misses is emitted bare and the generator's own syn re-parse fails - the
+# keyword-table harnesses of C13 for the short lengths are part of C02's kernel too
+PROPS["C02"] = [h for h in C13 if h.name in ("c13_keyword_table_len2", "c13_keyword_table_len3", "c13_keyword_table_len4", "c13_keyword_table_len5", "c13_keyword_table_len6", "c13_keyword_table_len8")]
